@@ -2,6 +2,7 @@ package yqlib
 
 import (
 	"bufio"
+	"io"
 	"strings"
 
 	yaml "gopkg.in/yaml.v3"
@@ -97,8 +98,25 @@ type c05Writer struct{ sb *strings.Builder }
 func (w c05Writer) Write(p []byte) (int, error) { return w.sb.Write(p) }
 
 // c05Line: one leading line from the classes the pre-processor distinguishes.
+var c05LastLineClass int
+var c05SeenSeparator bool
+
 func c05Line(name string) string {
-	switch verifChoice(name+"_class", 6) {
+	class := verifChoice(name+"_class", 6)
+	if c05LastLineClass == 2 && (class == 1 || class == 2 || class == 5) {
+		// text behind `--- ` on the same line belongs to the document: another `---` there is a scalar, a directive is
+		// not one - streams the decoder is not asked to take apart
+		class = 0
+	}
+	if c05SeenSeparator && (class == 1 || class == 2) {
+		// a second separator ends an empty first document: from there on the parser reads (VerifC05PreProcessedText)
+		class = 0
+	}
+	if class == 1 || class == 2 {
+		c05SeenSeparator = true
+	}
+	c05LastLineClass = class
+	switch class {
 	case 0:
 		return "\n"
 	case 1:
@@ -121,10 +139,11 @@ func c05Pass(input string, label string) (out string, rest string, ok bool) {
 		return "", "", false
 	}
 	// what is left for the YAML parser
-	br := r.(*bufio.Reader)
-	restB := make([]byte, 16)
-	n, _ := br.Read(restB)
-	rest = string(restB[:n])
+	restB, _ := io.ReadAll(r)
+	if len(restB) > 16 {
+		restB = restB[:16]
+	}
+	rest = string(restB)
 	var sb strings.Builder
 	enc := &yamlEncoder{prefs: NewDefaultYamlPreferences()}
 	if err := enc.PrintLeadingContent(c05Writer{&sb}, lc); err != nil {
@@ -136,6 +155,8 @@ func c05Pass(input string, label string) (out string, rest string, ok bool) {
 func VerifC05LeadingContent() {
 	n := verifChoice("lines", verifParam("maxlines", 2)+1)
 	input := ""
+	c05LastLineClass = -1
+	c05SeenSeparator = false
 	for i := 0; i < n; i++ {
 		input += c05Line("l" + verifItoa(int64(i)))
 	}
@@ -182,6 +203,9 @@ var c05CommentTexts = []string{
 	"a: 1\n\n# p1\n\n# p2\n",       // 16: two comment paragraphs after a blank line
 	"a:\n  b: 1\n\n# p1\n\n\n# p2\n", // 17: the same below a nested map
 	"- 1\n\n# p1\n\n# p2\n",        // 18: the same below a sequence
+	" \n# c\na: 1\n",               // 19: a line of blanks before the leading comment (no comment itself)
+	"  \n\n# c\n# d\na: 1\n",       // 20: a line of two blanks, a blank line
+	"---\n---\n# c\na: 1\n",        // 21: an empty first document
 }
 
 func c05AllComments(n *CandidateNode) string {
@@ -274,6 +298,8 @@ func VerifC05IdentityText() {
 		}
 		verifAssert(found, "C05/identity-lost-a-comment text="+verifItoa(int64(ti)))
 	}
+	// and no comment is invented (the texts hold # as the comment sign only)
+	verifAssert(strings.Count(out1, "#") == strings.Count(text, "#"), "C05/identity-invented-a-comment text="+verifItoa(int64(ti)))
 	out2, ok2 := c05Identity(out1, prefs)
 	verifAssert(ok2 && out2 == out1, "C05/identity-not-idempotent text="+verifItoa(int64(ti)))
 	verifCover("C05/identity-text/end")
@@ -311,4 +337,58 @@ func VerifC05LongCommentLines() {
 		verifAssert(verifEqStr(out2, out1) && rest2 == rest1, "C05/leading-content-not-idempotent long-line")
 	}
 	verifCover("C05/longline/end")
+}
+
+// VerifC05PreProcessedText: yq reads the comments and separators in front of a YAML stream itself before the parser
+// sees the rest (so that it can print them again). That must not change what the stream IS: the documents (kinds,
+// tags, values) a text decodes to with the pre-processing are those it decodes to without it. Lines from a pool that
+// mixes separators with and without text behind them, blank and whitespace-only lines, comments, directives.
+func VerifC05PreProcessedText() {
+	lines := []string{"\n", " \n", "\t\n", "---\n", "--- ", "# c\n", " # c\n", "%YAML 1.2\n", "--- # t\n", "--- x\n", "--- --- x\n", "--- |\n t\n", "#\n", "--- ---\n"}
+	n := 1 + verifChoice("lines", verifParam("prelines", 2))
+	text := ""
+	for i := 0; i < n; i++ {
+		text += lines[verifChoice("l"+verifItoa(int64(i)), len(lines))]
+	}
+	text += []string{"a: 1\n", "", "- b\n"}[verifChoice("body", 3)]
+	verifObserve("text", text)
+	read := func(pre bool) (string, bool) {
+		prefs := NewDefaultYamlPreferences()
+		prefs.LeadingContentPreProcessing = pre
+		dec := NewYamlDecoder(prefs)
+		if err := dec.Init(strings.NewReader(text)); err != nil {
+			return "", false
+		}
+		out := ""
+		for i := 0; i < 8; i++ {
+			nd, err := dec.Decode()
+			if err != nil {
+				if err.Error() == "EOF" {
+					return out, true
+				}
+				return "", false
+			}
+			out += "DOC " + c05DataDump(nd) + "\n"
+		}
+		return "", false
+	}
+	plain, okPlain := read(false)
+	pre, okPre := read(true)
+	if !okPlain {
+		verifCover("C05/preprocessed/rejected")
+		return // not a YAML stream (a directive in the wrong place, text after a block scalar header ...)
+	}
+	verifAssert(okPre, "C05/pre-processing-rejects-a-stream-the-parser-accepts")
+	if !okPre {
+		return
+	}
+	verifObserve("plain", plain)
+	verifObserve("pre", pre)
+	if plain == "DOC <!!null>\n" && pre == "" {
+		// input without a document: read without the pre-processing (load) it counts as one null document, by design
+		verifCover("C05/preprocessed/no-document")
+		return
+	}
+	verifAssert(plain == pre, "C05/pre-processing-changes-the-documents")
+	verifCover("C05/preprocessed/end")
 }
